@@ -211,7 +211,15 @@ def gauss_cases(draw, tier="quick"):
          "true_size": False,
          # overall scale of the standard deviations: 1, 1e-5 (covariance entries ~1e-10, off-diagonals below 1e-8), 1e3 or 1e9
          "scale_pow": draw(st.sampled_from([0, 0, 0, -5, 3, 9])),
-         "sparse_format": draw(st.sampled_from(["csr", "csr", "csc", "dia", "coo"]))}
+         "sparse_format": draw(st.sampled_from(["csr", "csr", "csc", "dia", "coo"])),
+         # integer-typed vector parameters (variances 1, 4, 9 ... written as ints, as an array or a list)
+         "int_dtype": draw(st.sampled_from([False, False, False, True])), "as_list": draw(st.booleans())}
+    if c["int_dtype"] and structure == "vector" and param in ("cov", "prec"):
+        ivals = [float(draw(st.integers(1, 9))) for _ in range(n)]
+        c["var"] = ivals if param == "cov" else [1.0 / v for v in ivals]
+        c["scale_pow"] = 0
+    else:
+        c["int_dtype"] = False
     sizes = [40, 60] if tier == "quick" else [40, 60, 74, 75, 76, 90]
     if draw(st.integers(0, 11 if tier == "quick" else 7)) == 0:
         # moderate and large true sizes (matrices from a seeded stream instead of generated entries): both sides of the real
@@ -271,6 +279,8 @@ def gauss_arg(c):
         if st_ == "scalar":
             return float(dvals[0])
         if st_ == "vector":
+            if c.get("int_dtype") and np.all(dvals == np.round(dvals)):
+                return [int(v) for v in dvals] if c.get("as_list") else dvals.astype(int)    # integer-typed variances / precisions
             return dvals.copy()
         return np.diag(dvals)
     if par in ("sqrtcov", "sqrtprec"):
@@ -348,11 +358,50 @@ def switch_independence(c, rec):
             "cuqi.config.MIN_DIM_SPARSE (the same input describes two different distributions)", below=(a1, a2), above=(b1, b2))
 
 
+def sqrtcov_either_convention(c, rec):
+    """the recorded finding KF-C04-sqrtcov-convention is about WHICH product of the factor is the covariance (documented R^T R,
+    implemented R R^T). Whatever the convention, a non-symmetric square root must give the Gaussian of one of the two products -
+    this still decides the class that the finding excludes from the main comparison."""
+    import cuqi
+    if not (c["param"] == "sqrtcov" and c["structure"] in ("dense", "sparse") and c["sqrt_kind"] != "symmetric") or c.get("true_size"):
+        return
+    n = c["n"]
+    mean = {"zero": 0.0, "scalar": float(c["mean"][0]), "vector": A(c["mean"])}[c["mean_kind"]]
+    mu = np.broadcast_to(np.asarray(mean, dtype=float), (n,))
+    sc = 10.0 ** c.get("scale_pow", 0)
+    x, x2 = mu + sc * A(c["x"]), mu + sc * A(c["x2"])
+    old = cuqi.config.MIN_DIM_SPARSE
+    try:
+        if c["sparse_switch"] == "above":
+            cuqi.config.MIN_DIM_SPARSE = 1
+        R = gauss_arg(c)
+        kw = {"sqrtcov": R}
+        if c["mean_kind"] != "vector":
+            kw["geometry"] = n
+        refused, d = refuses(lambda: cuqi.distribution.Gaussian(mean, **kw))
+        if refused:
+            return
+        refused, v = refuses(lambda: (_f(d.logpdf(x.copy())), _f(d.logpdf(x2.copy()))))
+        if refused or not all(np.isfinite(t) for t in v):
+            return
+    finally:
+        cuqi.config.MIN_DIM_SPARSE = old
+    Rd = R.toarray() if hasattr(R, "toarray") else np.asarray(R, dtype=float)
+    ok = False
+    for S in (Rd.T @ Rd, Rd @ Rd.T):
+        ref = sps.multivariate_normal(mu, S)
+        if close(v[0], float(ref.logpdf(x)), 1e-7) and close(v[1], float(ref.logpdf(x2)), 1e-7):
+            ok = True
+    require(ok, f"Gaussian(sqrtcov=<{c['sqrt_kind']} square root, {c['structure']}>): the log-density is that of neither N(mean, R^T R) nor N(mean, R R^T)",
+            got=v)
+
+
 def run_gauss(c, rec):
     import cuqi
     tags = gauss_tags(c)
     if not c.get("true_size"):
         switch_independence(c, rec)
+        sqrtcov_either_convention(c, rec)
     if rec.classify(tags, True):
         return
     n = c["n"]
@@ -629,7 +678,44 @@ def run_siblings(c, rec):
                 got=lall, want=wd)
 
 
+# ----------------------------------------------------------------------------- Uniform: volume of the box
+
+@st.composite
+def uniform_cases(draw, tier="quick"):
+    n = draw(st.sampled_from([1, 2, 3, 5, 12, 19, 20, 30, 64]))
+    kind = draw(st.sampled_from(["int_scalars", "float_scalars", "int_array", "float_array"]))
+    lo = draw(st.integers(-9, 5))
+    w = draw(st.integers(1, 12))
+    return {"n": n, "kind": kind, "low": lo, "width": w, "frac": draw(st.lists(st.floats(0.05, 0.95), min_size=n, max_size=n))}
+
+
+def run_uniform(c, rec):
+    """log-density of the uniform distribution on a box = -log(volume), whatever the numeric type of the bounds and however
+    large the dimension (bounds written as Python ints are the natural way to write them)"""
+    import cuqi
+    n, lo, w = c["n"], c["low"], c["width"]
+    if rec.classify({"kind": c["kind"], "n>=19": n >= 19}, n > 1):
+        return
+    if c["kind"] == "int_scalars":
+        d = cuqi.distribution.Uniform(int(lo), int(lo + w), geometry=n)
+    elif c["kind"] == "float_scalars":
+        d = cuqi.distribution.Uniform(float(lo), float(lo + w), geometry=n)
+    elif c["kind"] == "int_array":
+        d = cuqi.distribution.Uniform(np.full(n, lo, dtype=int), np.full(n, lo + w, dtype=int))
+    else:
+        d = cuqi.distribution.Uniform(np.full(n, float(lo)), np.full(n, float(lo + w)))
+    x = lo + w * A(c["frac"])
+    got = _f(must(lambda: d.logpdf(x.copy()), "Uniform.logpdf"))
+    want = -n * np.log(float(w))
+    require(close(got, want, 1e-10), f"Uniform({c['kind']}, dim {n}).logpdf inside the box is not -log(volume)", got=got, want=want)
+    xo = x.copy()
+    xo[-1] = lo + w + 0.5
+    with np.errstate(all="ignore"):
+        require(_f(d.logpdf(xo)) == -np.inf, "Uniform.logpdf outside the box is not -inf")
+
+
 SUBCHECKS = [
+    SubCheck("C04/uniform_volume", run_uniform, strategy=uniform_cases, n={"quick": 300, "thorough": 3000}, shards={"quick": 2, "thorough": 4}),
     SubCheck("C04/conditional_siblings", run_siblings, strategy=sibling_cases, n={"quick": 800, "thorough": 15000}, shards={"quick": 4, "thorough": 16}),
     SubCheck("C04/families", run_family, strategy=lambda tier: dists.family_spec(max_dim=5 if tier == "quick" else 9),
              n={"quick": 3000, "thorough": 60000}, shards={"quick": 4, "thorough": 16}),
